@@ -56,6 +56,9 @@ def _optionlike_labels(facts, b):
 
 
 def run(facts, tr, rep):
+    # the call future is analysed with the crate's private helpers (sync and async, closures handed to combinators, a
+    # per-call decision carried in a private struct / enum) inlined; the timeout source's get_timeout is a trait call
+    facts, tr = facts.inl, tr.inl
     sbs = service_call_bodies(facts, crate=CRATE)
     if not sbs:
         rep.anchor_missing("Service::call of the time limiter")
